@@ -1666,9 +1666,8 @@ impl FixWord {
 
         // TeX.2021.571 (store_scaled)
         let [a, b, c, d] = self.0.to_be_bytes();
-        assert!(a == 0 || a == 255);
         let sw = (((z * (d as i32)) / 0o400 + (z * (c as i32))) / 0o400 + z * (b as i32)) / beta;
-        if a == 255 {
+        if a >= 128 {
             // In this case self < 0.
             // We have calculated sw using only the 3 least significant bytes of self,
             // which is equivalent to setting self=16+self at the start. We then undo
